@@ -1,12 +1,14 @@
 package checks
 
 import (
+	"bytes"
 	"encoding/json"
 	"fmt"
 	"os"
 	"os/exec"
 	"path/filepath"
 	"strings"
+	"time"
 
 	"verif/internal/fw"
 )
@@ -63,8 +65,9 @@ func pschedRun(c *fw.Ctx, prop string, part int) {
 		}
 		cmd := exec.Command(yb, "pairsched", tier, fmt.Sprint(part-pschedParts), fmt.Sprint(pschedParts), c.Scratch, prop)
 		cmd.Env = append(os.Environ(), "PSCHED_STATEMENTS=1")
-		out, err := cmd.CombinedOutput()
-		pschedFile(c, out, err)
+		if out, err, ok := runSub(c, "pairing-handler interleavings at statement level", cmd); ok {
+			pschedFile(c, out, err)
+		}
 		return
 	}
 	bin := pschedBinary()
@@ -72,8 +75,39 @@ func pschedRun(c *fw.Ctx, prop string, part int) {
 		c.Note("pairing-handler interleavings skipped: " + bin + " not built")
 		return
 	}
-	out, err := exec.Command(bin, "pairsched", tier, fmt.Sprint(part), fmt.Sprint(pschedParts), c.Scratch, prop).CombinedOutput()
-	pschedFile(c, out, err)
+	if out, err, ok := runSub(c, "pairing-handler interleavings", exec.Command(bin, "pairsched", tier, fmt.Sprint(part), fmt.Sprint(pschedParts), c.Scratch, prop)); ok {
+		pschedFile(c, out, err)
+	}
+}
+
+// subTimeout: the explorer subprocesses end by themselves (150 s / 3 min quick, 15 min thorough); the parent kills
+// one that does not — e.g. because changed code under test blocks in a way the scheduler does not model — and files
+// the part as not explored instead of waiting for ever.
+func subTimeout(c *fw.Ctx) time.Duration {
+	if c.Thorough() {
+		return 18 * time.Minute
+	}
+	return 5 * time.Minute
+}
+
+// runSub runs an explorer subprocess with a hard time limit. ok=false: it was killed (reported as not exhaustive).
+func runSub(c *fw.Ctx, what string, cmd *exec.Cmd) (out []byte, err error, ok bool) {
+	var buf bytes.Buffer
+	cmd.Stdout, cmd.Stderr = &buf, &buf
+	if err := cmd.Start(); err != nil {
+		return nil, err, true
+	}
+	done := make(chan error, 1)
+	go func() { done <- cmd.Wait() }()
+	select {
+	case err = <-done:
+		return buf.Bytes(), err, true
+	case <-time.After(subTimeout(c)):
+		cmd.Process.Kill()
+		<-done
+		c.NotExhaustive(what + ": the explorer subprocess did not end within its time limit and was stopped (code under test blocks outside the modelled primitives?)")
+		return buf.Bytes(), nil, false
+	}
 }
 
 func fileExists(p string) bool { _, err := os.Stat(p); return err == nil }
@@ -187,8 +221,9 @@ func interfRun(c *fw.Ctx, prop string) {
 	if c.Thorough() {
 		tier = "thorough"
 	}
-	out, err := exec.Command(bin, "interf", tier, fmt.Sprint(part), fmt.Sprint(parts), c.Scratch, prop).CombinedOutput()
-	interfFile(c, out, err)
+	if out, err, ok := runSub(c, "statement-level interleavings", exec.Command(bin, "interf", tier, fmt.Sprint(part), fmt.Sprint(parts), c.Scratch, prop)); ok {
+		interfFile(c, out, err)
+	}
 }
 
 func interfReplay(c *fw.Ctx, cas interfCase) {
